@@ -62,13 +62,13 @@ CHECKS["C13"] = dict(engine="ahofilter", design="4 C13", technique="regular-lang
 CHECKS["C15"] = dict(engine="purity", design="4 C15", technique="TLA+ model checking of Purity.tla (threads x calls x hash-seed permutation; TLC emits the step-level schedules) + replay of every call-level history in fresh processes under different PYTHONHASHSEED + deterministic two-thread schedules (sys.settrace scheduler) + TLC trace validation",
    text=("Purity.tla models a process (hash seed = iteration order of a set of extractors), the shared default tokenizer (only mutable shared state: the compiled-pattern cache) "
          "and two threads whose calls are four pre-emptible steps; TLC checks that every completed call returns F(text) -- the winning extractors and the SEQUENCE of the merged token's candidate editions -- for every interleaving and call list (and shows that the original behaviours SetOrder / EdSetOrder and the regression SharedSel violate it). Every call-level history TLC enumerates is replayed with real threads in fresh interpreters under 8 (thorough 32) hash seeds, "
-         "texts bound to a corpus containing every text found with unmerged equal-span candidates; a deterministic scheduler (harness/sched.py: threads parked at the call events of eyecite frames, one pre-emption at every k-th yield point and at the first entry of every function, also as the first calls of a fresh process) forces the interleavings inside a call; TLC judges each recorded call against the fresh single-threaded baseline."),
+         "texts bound to a corpus containing every text found with unmerged equal-span candidates, over six option sets (plain, remove_ambiguous, cleaning steps, markup mode, a step list without html, tokenizer=HyperscanTokenizer with one instance per thread), every third history with other tokenizers (filtered / reversed / partial extractor lists over the shared extractor objects) built and used between its calls; a deterministic scheduler (harness/sched.py: threads parked at the call events of eyecite frames, one pre-emption at every k-th yield point and at the first entry of every function, also as the first calls of a fresh process) forces the interleavings inside a call; TLC judges each recorded call against the fresh single-threaded baseline."),
    note="Trusted: TLC + Json; interleavings inside a call are enumerated at function-call granularity with one pre-emption (bytecode-level races inside one function are only met by the free-running 1 us switch-interval runs); candidate editions compared in their tuple order; digest comparison (sha1/64 bit) of serialised results.")
 CHECKS["C03"] = dict(engine="filter", design="4 C03", technique="TLA+ model checking of Filter.tla (exact transcription of filter_citations) + list replay + TLC trace validation of get_citations results and merge histories",
    text=("Filter.tla transcribes filter_citations (de-dup by span, stable sort by full span, sweep, final sort by span). TLC checks Sorted, Disjoint, NonRefsKept, Idempotent for every "
          "citation list extraction can produce within bounds (<= 3 non-reference citations with disjoint spans and arbitrary enclosing full spans, <= 2 reference citations inserted "
          "before their full citation or appended). Every emitted list is rebuilt from real citation objects and filtered once and twice; get_citations runs on citation-dense generated "
-         "documents with both merge histories; every deep layout (3 non-reference + 2 reference citations) of the exhaustive unit-span instance MC_Filter_unit and `tlc -simulate` walks of a deeper instance (lists of up to 7 citations; thorough: 6x more) are replayed too; documents include named fragments x reference forms so that the merge histories contain reference citations; TLC judges order / uniqueness / non-overlap / non-references kept / idempotence and checks model = code on every one."),
+         "documents with both merge histories; every deep layout (3 non-reference + 2 reference citations) of the exhaustive unit-span instance MC_Filter_unit and `tlc -simulate` walks of a deeper instance (lists of up to 7 citations; thorough: 6x more) are replayed too; documents include named fragments x reference forms so that the merge histories contain reference citations, a slice extracted with remove_ambiguous=True and 400 marked-up documents extracted in markup mode (line-wrapped multi-word names, six step lists); TLC judges order / uniqueness / non-overlap / non-references kept / idempotence and checks model = code on every one."),
    note="Trusted: TLC + Json; the list generation constraints state what extraction can produce (they were derived from the code and are what TLC counterexamples are concretised against).")
 CHECKS["C18"] = dict(engine="editions", design="4 C18", technique="TLA+ model checking of Editions.tla (get_year / includes_year / guess_edition) + extraction over every ambiguous reporter string x boundary years x year positions + TLC trace validation",
    text=("Editions.tla transcribes get_year, Edition.includes_year, guess_edition and the ambiguity filter; TLC checks YearSound and GuessSound for every candidate configuration "
@@ -90,7 +90,7 @@ _ext = ("Extract.tla models the offset arithmetic of the extractors (extract_pin
         "add_pre_citation, short-form antecedents, match_on_tokens windows) over abstract token lists with NONDETERMINISTIC regex results; TLC checks SpanLaws for every word list of <= 4 (5) tokens, "
         "every citation position and form and every matcher result the window admits (and finds the two original arithmetic defects when the fix flags are off). "
         "Citation-dense generated documents (all fragment pairs x separators, seeded longer and hostile documents, character mutations), in plain and markup mode, through the three tokenizers, "
-        "are judged by TLC monitors on the returned citations; and Extract.tla is BOUND to the code step by step: the guarded hook logs every match_on_tokens window and result, Trace_ExtractSteps.tla recomputes every span of every returned citation (short / supra / id / full / law / journal) and every window length with Extract.tla's operators from the logged matcher results and the public token list and must equal what the library returned (selftest/binding_demo.py shows corrupted recordings are rejected). Meta.tla specifies the VALUES of the metadata (process_parenthetical as the loop the code runs, the strip helpers, get_year, the order post-citation / defendant scan / pre-citation / parallel inheritance): MC_Meta checks its laws for every text of <= 6 (8) characters and every chain of <= 4 (6) citations and every model input is replayed through the real helper functions; Trace_Meta.tla takes one model step per citation of a document (state: the citation appended just before), binds the matcher results from the hook events and recomputes every metadata value from the document at the places the events name (differences are SPEC-DRIFT). The generated documents are followed by a real-text corpus: every citation-like string literal of the repository's own tests and the paragraphs of tests/assets/opinion.txt. Monitors: ")
+        "are judged by TLC monitors on the returned citations; and Extract.tla is BOUND to the code step by step: the guarded hook logs every match_on_tokens window and result, Trace_ExtractSteps.tla recomputes every span of every returned citation (short / supra / id / full / law / journal) and every window length with Extract.tla's operators from the logged matcher results and the public token list and must equal what the library returned (selftest/binding_demo.py shows corrupted recordings are rejected). Meta.tla specifies the VALUES of the metadata (process_parenthetical as the loop the code runs, the strip helpers, get_year, the order post-citation / defendant scan / pre-citation / parallel inheritance): MC_Meta checks its laws for every text of <= 6 (8) characters and every chain of <= 4 (6) citations and every model input is replayed through the real helper functions; Trace_Meta.tla takes one model step per citation of a document (state: the citation appended just before), binds the matcher results from the hook events and recomputes every metadata value from the document at the places the events name (differences are SPEC-DRIFT). Configurations: a slice of the documents with remove_ambiguous=True, documents around every reporter string with separable candidate editions (an undated citation of it next to a dated citation of something else), and the C19 markup generator's documents under six step lists. The generated documents are followed by a real-text corpus: every citation-like string literal of the repository's own tests and the paragraphs of tests/assets/opinion.txt. Monitors: ")
 CHECKS["C02"] = dict(engine="extract", design="4 C02", technique="TLA+ model checking of Extract.tla (offset arithmetic with nondeterministic matchers) + step-level trace validation of hook-recorded matcher events against Extract.tla (Trace_ExtractSteps.tla) + TLC-judged monitors on citations returned for generated documents",
    text=_ext + "0 <= full start <= start <= end <= full end <= len; the slice at the span starts with the whole matched text; the pin-cite span contains the span and the pin-cite text.", note=EXT_NOTE)
 CHECKS["C17"] = dict(engine="extract", design="4 C17", technique="TLC-judged witness monitor (every textual metadata value occurs inside the citation's own or joint extent) on generated documents + Extract.tla / Meta.tla model checking and step-level trace validation of hook-recorded matcher events (Trace_ExtractSteps.tla: offsets; Trace_Meta.tla: values, one model step per citation)",
@@ -105,14 +105,14 @@ CHECKS["C04"] = dict(engine="eyecite", design="4 C04", technique="TLC trace vali
 CHECKS["C14"] = dict(engine="hyperscan", design="4 C14", technique="TLA+ model checking of HsOffsets.tla (byte/character offsets) and HsCache.tla (cache life cycle with crashes and corruptions) + replay on real cache directories + TLC-judged candidate comparison",
    text=("HsOffsets.tla models byte-level matching with start-of-match, the widening of hits to whole characters, the byte->character offset table and the re-match; TLC checks for every text of <= 5 characters "
          "(core / alphanumeric / punctuation / 2- and 3-byte characters) that no reference candidate is lost and every candidate is genuine. HsCache.tla models construction as separate steps (exists, load, scratch, "
-         "compile, non-atomic write) with crashes between write begin and end, eight corruption classes and a file written by a tokenizer with a different extractor list (Foreign); TLC checks it never raises and only takes a database from an intact file; every behaviour is replayed on a real "
+         "compile, non-atomic write) with crashes between write begin and end, eight corruption classes and a file written by a tokenizer with another configuration in the same directory (Foreign: other flags, or the same patterns in another order); TLC checks it never raises and only takes a database from an intact file; every behaviour is replayed on a real "
          "cache directory and hyperscan.loadb's reaction to each fault class is compared with the model's environment assumption. Generated legal text with multi-byte characters before / after / between / inside "
-         "citations is run through both tokenizers and TLC judges subset, genuineness of extra candidates and agreement of get_citations."),
+         "citations is run through both tokenizers -- also over custom extractor lists (a reversed sample; synthetic patterns with multi-byte literals and optional characters), and a second time on the same tokenizer instance after get_citations used its tokens -- and TLC judges subset, genuineness of extra candidates and agreement of get_citations."),
    note="Trusted: TLC + Json; the domain guard of C14 (no non-ASCII whitespace / digits / case variants) holds by construction of the texts; 'genuine' witnesses are computed by re-matching on the full text; cache replay uses a 45-extractor list.")
 CHECKS["C19"] = dict(engine="markup", design="4 C19", technique="TLA+ model checking of Markup.tla (reference offsets through the markup->plain translator) + TLC-judged comparison of markup mode with plain mode on generated markup",
    text=("Markup.tla models the cleaned text, the markup->plain SpanUpdater script (one '-' per tag) and the reference finder's offset arithmetic (bisect_left for starts, bisect_right for ends); TLC checks for every markup "
          "of <= 6 tokens that the computed reference span is exactly where the name stands in the cleaned text, inside the text and inside its full span. Generated marked-up legal text (italic / emphasis around party "
-         "names with and without trailing punctuation, paragraphs, entities, whitespace, ordinary-word party names emphasised later in lower case, parallel citations) x three step lists containing html is extracted in "
+         "names with and without trailing punctuation, paragraphs, entities, whitespace, ordinary-word party names emphasised later in lower case, whole multi-word names wrapped across lines, parallel citations) x six step lists containing html (first, last, in the middle) is extracted in "
          "markup mode and in plain mode on the cleaned text; TLC judges: non-reference citations identical, reference offsets valid, each reference after a full case citation one of whose valid names occurs in its text."),
    note="Trusted: TLC + Json; the name-validity rule is transcribed in the harness; the witness (which full citation / name / offset) is searched by the harness and verified by TLC.")
 CHECKS["C05"] = dict(engine="scenario", design="4 C05", technique="TLA+ model checking of Scenario.tla on top of Resolve.tla + every scenario rendered into one running text through get_citations and resolve_citations + TLC trace validation",
@@ -126,7 +126,7 @@ CHECKS["C01"] = dict(engine="forms", design="4 C01", technique="TLA+ grammar spe
          "for the six forms, the domain rules of the property, and Expected(shape): which slots the span covers, where every component is written, where the full span starts and ends. TLC enumerates all ~9,200 valid shapes "
          "and checks the ground truth is internally consistent. Every shape is concretised (reporter strings, courts from courts-db, names, numbers) and every plain-template reporter string of reporters-db (~2,900 edition names "
          "and variations) is run through the minimal 'vol R page' and 'vol R at page' forms; TLC compares the projected result of get_citations with the concrete expectation: count, kind, exact span, groups, pin cite, year, court, "
-         "defendant, plaintiff suffix, antecedent, parenthetical, full-span start and end (adjacent whitespace tolerance), written reporter among the candidate editions unless a second pattern matches the same characters. Also concretised: every court of courts-db whose citation string the year-parenthetical grammar admits, every journal and law reporter string and every law example citation of reporters-db, punctuated and multi-word party names, a lead longer than the matcher window. Open known finding F22: an antecedent guess is cut at an apostrophe / inner capital (KNOWN-FINDING by mechanism signature)."),
+         "defendant, plaintiff suffix, antecedent, parenthetical, full-span start and end (adjacent whitespace tolerance), written reporter among the candidate editions unless a second pattern matches the same characters. Every shape document is extracted again with remove_ambiguous=True (same expectation: the pool's reporter strings each name one edition) and one in twelve through the Hyperscan tokenizer (never the first Hyperscan tokenizer of its process). Also concretised: every court of courts-db whose citation string the year-parenthetical grammar admits, every journal and law reporter string and every law example citation of reporters-db, punctuated and multi-word party names, a lead longer than the matcher window. Open known finding F22: an antecedent guess is cut at an apostrophe / inner capital (KNOWN-FINDING by mechanism signature)."),
    note="Trusted: TLC + Json; concretisation in harness/forms.py; editions with custom templates, variations ending in ',' or ' at' are excluded (counted); for short / supra / id. forms the full-span end is judged as 'reaches the span end, at most the closing parenthesis'.")
 NA_REASON = "check not built yet (work in progress; see DESIGN.md section 10 build order)"
 checks = []
